@@ -1274,6 +1274,14 @@ def ob_mub(m, d, kind, form, ket=False, extra=0):
     def witness():
         # two ORTHONORMAL bases of C^4 whose overlaps deviate from 1/4 only at (k, l) with l < k: the standard basis and the
         # Fourier basis with rows 2, 3 rotated (c, s) = (0.8, 0.6) and coordinates 1, 2 exchanged; biased, so the verdict is False
+        if form == "biased" and m >= 3 and not extra and d in (2, 3):
+            # three or more orthonormal bases in which every pair of NEIGHBOURS in the list is unbiased and a pair further apart is
+            # not (round-6 seed: only consecutive bases compared): Z, X, Z again / Z, Fourier, Z with a relabelled order
+            E = np.eye(d, dtype=complex)
+            Fm = np.array([[np.exp(2j * np.pi * a * c_ / d) for c_ in range(d)] for a in range(d)]) / np.sqrt(d)
+            fam = [E[k] for k in range(d)] + [Fm[k] for k in range(d)] + [E[(k + 1) % d] for k in range(d)]
+            fam += [Fm[k] for k in range(d)] * (m - 3)
+            return [{"V": fam[:m * d]}] if m == 3 else []
         if not (form == "biased" and d == 4 and m == 2 and not extra):
             return []
         F = np.array([[1j ** (a * c_) for c_ in range(4)] for a in range(4)]) / 2
